@@ -44,6 +44,48 @@ HERE = os.path.dirname(os.path.abspath(__file__))
 # identity-tagged values
 
 
+def _term(x):
+    if isinstance(x, (TF, TI)):
+        return x.term
+    if isinstance(x, (bool, np.bool_)):
+        return None
+    if isinstance(x, (int, np.integer)):
+        return z3.IntVal(int(x))
+    if isinstance(x, (float, np.floating)):
+        return z3.RealVal(repr(float(x)))
+    return None
+
+
+def _lift(op, sym):
+    """scalar arithmetic keeps the identity: the result carries the z3 term of the operation (exact real /
+    integer semantics); anything else (arrays, complex, Aff) falls back to the plain float / int behaviour"""
+
+    def f(self, o):
+        t = _term(o)
+        if t is None:
+            base = int if isinstance(self, TI) else float
+            return getattr(base, op)(base(self), o)
+        base = int if (isinstance(self, TI) and isinstance(o, (int, np.integer)) and sym != "/") else float
+        r = getattr(base, op)(base(self), base(o))
+        if r is NotImplemented:
+            return r
+        a, b = (t, self.term) if op.startswith("__r") and op not in ("__radd__", "__rmul__") else (self.term, t)
+        if sym == "/":
+            a, b = (z3.ToReal(a) if a.is_int() else a), (z3.ToReal(b) if b.is_int() else b)
+            term = a / b
+        elif sym == "+":
+            term = a + b
+        elif sym == "-":
+            term = a - b
+        else:
+            term = a * b
+        if isinstance(r, (int, np.integer)) and not isinstance(r, bool):
+            return TI(int(r), term)
+        return TF(float(r), term)
+
+    return f
+
+
 class TF(float):
     """a concrete float that carries the identity of a symbolic value"""
 
@@ -51,6 +93,40 @@ class TF(float):
         o = float.__new__(cls, v)
         o.term = term
         return o
+
+    def __neg__(self):
+        return TF(-float(self), -self.term)
+
+    def __pos__(self):
+        return self
+
+
+class TI(int):
+    """a concrete int that carries the identity of a symbolic integer (e.g. a whole number of pad cells)"""
+
+    def __new__(cls, v, term):
+        o = int.__new__(cls, v)
+        o.term = term
+        return o
+
+    def __neg__(self):
+        return TI(-int(self), -self.term)
+
+
+for _op, _s in (("__add__", "+"), ("__radd__", "+"), ("__sub__", "-"), ("__rsub__", "-"), ("__mul__", "*"), ("__rmul__", "*"),
+                ("__truediv__", "/"), ("__rtruediv__", "/")):
+    setattr(TF, _op, _lift(_op, _s))
+    setattr(TI, _op, _lift(_op, _s))
+
+
+def keep_int(x):
+    """int() inside the loaded modules: truncation of an identity-carrying value is ToInt of its term"""
+    if isinstance(x, TI):
+        return x
+    if isinstance(x, TF):
+        t = x.term
+        return TI(int(float(x)), z3.If(t >= 0, z3.ToInt(t), -z3.ToInt(-t)))
+    return int(x)
 
 
 class TA(np.ndarray):
@@ -83,6 +159,8 @@ def tok(x):
     """token of a hashed object: nested tuples with z3 terms at symbolic leaves"""
     if isinstance(x, TF):
         return ("sym", x.term)
+    if isinstance(x, TI):
+        return ("symint", x.term)
     if isinstance(x, TA) and x.terms is not None and len(x.terms) == x.size:
         return ("arr", tuple(("sym", t) for t in x.terms))
     if isinstance(x, np.ndarray):
@@ -121,7 +199,7 @@ class NPKey:
             # a numpy routine the identity model does not know must not silently
             # strip identities: that would turn the key into concrete bytes
             for x in list(a) + list(k.values()):
-                if isinstance(x, TA) or isinstance(x, TF) or (isinstance(x, (tuple, list)) and any(isinstance(e, TF) for e in x)):
+                if isinstance(x, (TA, TF, TI)) or (isinstance(x, (tuple, list)) and any(isinstance(e, (TF, TI)) for e in x)):
                     raise NotImplementedError("C15 identity model: numpy.%s on identity-tagged data" % n)
             return f(*a, **k)
 
@@ -130,9 +208,9 @@ class NPKey:
     def asarray(self, x, *a, **k):
         if isinstance(x, TA):
             return x
-        if isinstance(x, (tuple, list)) and any(isinstance(e, TF) for e in x):
+        if isinstance(x, (tuple, list)) and any(isinstance(e, (TF, TI)) for e in x):
             return _Seq(x)
-        if isinstance(x, TF):
+        if isinstance(x, (TF, TI)):
             return _Seq((x,))
         return np.asarray(x, *a, **k)
 
@@ -196,9 +274,10 @@ def load_stack(patch=None):
     sym = kindl.Sym(record=False, patch=patch)
     # the solver module's float() must not strip identities
     sym.solver_mod.__dict__["float"] = keep_float
+    sym.solver_mod.__dict__["int"] = keep_int
     env = {
         "modules": {"numpy": NPKey(), "hashlib": types.SimpleNamespace(sha256=Sha)},
-        "builtins": {"str": StrTok, "repr": StrTok},
+        "builtins": {"str": StrTok, "repr": StrTok, "int": keep_int, "float": keep_float},
         "patch": patch or {},
     }
     L = Loader(env)
@@ -282,8 +361,8 @@ def record(sk, prefix, patch=None, footprint=True):
 
 
 def subst_tokens(t, mapping):
-    if isinstance(t, tuple) and len(t) == 2 and t[0] == "sym":
-        return ("sym", z3.substitute(t[1], *mapping)) if mapping else t
+    if isinstance(t, tuple) and len(t) == 2 and t[0] in ("sym", "symint"):
+        return (t[0], z3.substitute(t[1], *mapping)) if mapping else t
     if isinstance(t, tuple):
         return tuple(subst_tokens(e, mapping) for e in t)
     return t
@@ -292,10 +371,15 @@ def subst_tokens(t, mapping):
 def tokens_equal(a, b):
     """z3 condition for two token structures to be equal (None = impossible)"""
     if isinstance(a, tuple) and isinstance(b, tuple):
-        if len(a) == 2 and a[0] == "sym" and len(b) == 2 and b[0] == "sym":
+        if len(a) == 2 and len(b) == 2 and a[0] == b[0] and a[0] in ("sym", "symint"):
             return [a[1] == b[1]]
+        if len(a) == 2 and len(b) == 2 and {a[0], b[0]} == {"sym", "symint"}:
+            return None  # a float and an int never render / serialise alike
         if len(a) == 2 and len(b) == 2 and {a[0], b[0]} == {"sym", "num"}:
             s, n = (a, b) if a[0] == "sym" else (b, a)
+            return [s[1] == z3.RealVal(repr(float(n[1])))]
+        if len(a) == 2 and len(b) == 2 and {a[0], b[0]} == {"symint", "num"}:
+            s, n = (a, b) if a[0] == "symint" else (b, a)
             return [s[1] == z3.RealVal(repr(float(n[1])))]
         if len(a) != len(b):
             return None
@@ -405,7 +489,7 @@ def part_a(run, patch=None, account=True, sks=None):
         s.add(zero_side)
         scn = dict(stored=sk1, requested=sk2)
         r_ = solve(s, "stored_entry_never_answers_a_different_request", scn)
-        m = _generic_model(s, va, vb) if r_ == "sat" else None
+        m = _generic_model(s, va, vb, sk1, sk2) if r_ == "sat" else None
         s.pop()
         if r_ == "sat":
             cex.append(dict(obligation="stored_entry_never_answers_a_different_request", stored=sk1, requested=sk2,
@@ -421,7 +505,7 @@ def _generic(which):
     g = {}
     a = which == "a"
     g.update(halo=17.0 if a else 23.0, bg=0.4 if a else 0.75, xm=12.0 if a else 15.0, ym=9.0 if a else 7.0,
-             xmx=60.0 if a else 72.0, ymx=40.0 if a else 48.0)
+             xmx=60.0 if a else 72.0, ymx=44.0 if a else 50.0)  # non-square cells for every skeleton shape
     for i, zv in enumerate(np.linspace(0.05, 2.5, NZ) if a else np.linspace(0.09, 1.7, NZ) ** 1.5 + 0.3):
         g["z%d" % i] = round(float(zv), 4)
     base = dict(u=(2.5, -0.4), v=(-1.2, 0.3), Kx=(1.6, -0.2), Ky=(0.9, 0.15), Kz=(0.6, 0.25)) if a else \
@@ -432,21 +516,45 @@ def _generic(which):
     return g
 
 
-def _generic_model(s, va, vb):
+def _generic_model(s, va, vb, sk1=None, sk2=None):
     """the solver's witness, steered towards generic values: each preferred value is kept when the
     query stays satisfiable with it. A witness that differs from the stored request only by, say, a uniform
-    shift of the grid under constant profiles is a key collision without a visibly stale result; the
-    generic witness shows the stale result whenever the collision allows one."""
+    shift of the grid under constant profiles, or by a halo that pads the same whole number of cells, is a key
+    collision without a visibly stale result; the generic witness shows the stale result whenever the collision
+    allows one."""
     s.set("timeout", 5000)
     depth = 0
-    for vars_, pref in ((va, _generic("a")), (vb, _generic("b"))):
+
+    def prefer(c):
+        nonlocal depth
+        s.push()
+        s.add(c)
+        if str(s.check()) == "sat":
+            depth += 1
+            return True
+        s.pop()
+        return False
+
+    ga, gb = _generic("a"), _generic("b")
+    first = ["xmx", "ymx"]
+    for vars_, pref in ((va, ga), (vb, gb)):
+        for k in first:
+            prefer(vars_[k] == z3.RealVal(repr(pref[k])))
+    if sk1 is not None and sk2 is not None and sk1["shape"] == sk2["shape"]:
+        # the halo acts through the whole cells it pads: prefer witnesses whose pad widths differ
+        ny, nx = sk1["shape"]
+
+        def pads(v, sk):
+            h = v["halo"] if sk["halo_given"] else v["xmx"]
+            e = z3.RealVal("1/1000000000")
+            return z3.ToInt(h * nx / v["xmx"] + e), z3.ToInt(h * ny / v["ymx"] + e)
+
+        (pxa, pya), (pxb, pyb) = pads(va, sk1), pads(vb, sk2)
+        prefer(z3.Or(pxa != pxb, pya != pyb))
+    for vars_, pref in ((va, ga), (vb, gb)):
         for k in SLOTS:
-            s.push()
-            s.add(vars_[k] == z3.RealVal(repr(pref[k])))
-            if str(s.check()) == "sat":
-                depth += 1
-            else:
-                s.pop()
+            if k not in first:
+                prefer(vars_[k] == z3.RealVal(repr(pref[k])))
     assert str(s.check()) == "sat"
     m = s.model()
     for _ in range(depth):
@@ -456,7 +564,7 @@ def _generic_model(s, va, vb):
 
 def _show(toks):
     def f(t):
-        if isinstance(t, tuple) and len(t) == 2 and t[0] == "sym":
+        if isinstance(t, tuple) and len(t) == 2 and t[0] in ("sym", "symint"):
             return str(t[1])
         if isinstance(t, tuple):
             return [f(e) for e in t]
